@@ -320,6 +320,11 @@ class BaseAsyncNetworkServerImpl(AbstractAsyncNetworkServer, Generic[_T_LowLevel
                     listeners.extend(await servers_factory(self))  # type: ignore[arg-type]
                 if self.__servers_factory_scope.cancelled_caught():
                     raise ServerClosedError("Server has been closed")
+                if self.__servers_factory_scope.cancel_called():
+                    # server_close() has been called while the factory was finishing (there was no checkpoint left to deliver
+                    # the cancellation): the server is closed, do not keep the listeners which have just been created.
+                    await self.__close_all_servers(self.__backend, listeners)
+                    raise ServerClosedError("Server has been closed")
             finally:
                 self.__servers_factory_scope = None
             if not listeners:
